@@ -134,7 +134,7 @@ func descr(in linIn, out linOut) string {
 }
 
 func linCase(c *vlib.Ctx, kind int, i int, r *vlib.Rand) {
-	section := "lin-" + []string{"rq", "dq"}[kind]
+	section := secName("lin-", kind)
 	if skipAbandoned(c, section, i) {
 		return
 	}
@@ -260,7 +260,7 @@ func linCase(c *vlib.Ctx, kind int, i int, r *vlib.Rand) {
 		go func() { wg.Wait(); close(ch) }()
 		return ch
 	}
-	caseID := fmt.Sprintf("lin-%s#%d", map[int]string{0: "rq", 1: "dq"}[kind], i)
+	caseID := fmt.Sprintf("%s#%d", secName("lin-", kind), i)
 	if !waitDone(done(&wwg)) {
 		atomic.AddInt32(&stallsSeen, 1)
 		c.Inconclusive(caseID, "watchdog fired while non-blocking workers were running")
